@@ -221,9 +221,12 @@ class PIT(DNAS):
                 if isinstance(layer, PITModule) and hasattr(layer, 'following_bn_args'):
                     layer.following_bn_args = None  # type: ignore
 
-        seed_training = self.seed.training
+        # the conversion forces eval() on every module: remember the mode of each of them (a user
+        # may have frozen single layers, e.g. BatchNorm, with .eval())
+        seed_modes = [(m, m.training) for m in self.seed.modules()]
         mod, _, _ = convert(self.seed, self._input_example, 'export')
-        self.seed.train(seed_training)
+        for m, training in seed_modes:
+            m.training = training
 
         return mod
 
